@@ -181,5 +181,40 @@ struct Catcher
   long operator()() const { return c; }
 };
 
+// Fixed scenario (not generated): a slot object referred to *by reference* from the functor of another
+// slot.  visitor<slot> parents the inner slot's rep to the outer rep when the outer slot binds and must
+// unparent it when the outer slot dies; afterwards invalidating the inner slot must not reach the dead
+// outer rep (order A), and invalidating the inner slot while the outer one lives must empty the outer (order B).
+struct CallSlot
+{
+  long operator()(sigc::slot<long()>& s) const { return s ? s() : -1; }
+};
+static void fixed_slot_by_reference()
+{
+  std::string out;
+  { // A: outer dies first, then the inner slot's target
+    g_tr.assign(1, nullptr); g_tr[0] = new Tr(0);
+    sigc::slot<long()> inner = sigc::mem_fun(*g_tr[0], &Tr::m0);
+    auto* outer = new sigc::slot<long()>(sigc::bind(CallSlot(), std::ref(inner)));
+    out += "A:outer_nonempty=" + std::to_string(!outer->empty());
+    delete outer;
+    delete g_tr[0]; g_tr[0] = nullptr;
+    out += ",inner_empty=" + std::to_string(inner.empty());
+  }
+  { // B: the inner slot's target dies while the outer slot lives
+    g_tr.assign(1, nullptr); g_tr[0] = new Tr(0);
+    sigc::slot<long()> inner = sigc::mem_fun(*g_tr[0], &Tr::m0);
+    auto* outer = new sigc::slot<long()>(sigc::bind(CallSlot(), std::ref(inner)));
+    sigc::slot<long()> copy = *outer;
+    delete g_tr[0]; g_tr[0] = nullptr;
+    out += " B:inner_empty=" + std::to_string(inner.empty()) + ",outer_empty=" + std::to_string(outer->empty());
+    delete outer;
+    out += ",copy_empty=" + std::to_string(copy.empty());
+  }
+  g_tr.clear(); g_log.clear();
+  printf("fixed slotref %s\n", out.c_str());
+  fflush(stdout);
+}
+
 static void begin_case(int n) { printf("case %d", n); }
 static void end_case() { printf("\n"); fflush(stdout); }
